@@ -12,9 +12,11 @@ SIM_STEPS = ['GOV', 'TF', 'HH', 'LAB', 'GOOD', 'BUS']
 def sim_spec(rng):
     spec = M.gen_spec(rng, n_zones=1, allow_fed=False, ext=False, maxtime=4)
     z = spec['zones'][0]
-    z['gov'] = dict(z['gov'], form='consolidated', money=False, deposits=False, r=None)
+    z['gov'] = dict(z['gov'], form='consolidated', money=False, deposits=False, r=None, bonds=False)
+    z['gov'].pop('tre_cash', None)
     c = z['countries'][0]
     c['hh'] = dict(c['hh'], portfolio=None, F0=None)
+    c['hh'].pop('bond_share', None)
     c['cap'] = None
     c['custom'] = None
     c['second_market'] = None
